@@ -483,7 +483,7 @@ class ImportUtilities:
         # Calculate the renormalization factor
         renormalization = 1 - rejected_weighting_sum
 
-        if renormalization == 0:
+        if renormalization == 0 or non_rejected_weighting_sum == 0:
             # If the only nonzero weights were for invalid percentages, return 9.37e36
             return 9.37e36
 
